@@ -122,6 +122,8 @@ static void apply_env(jv *s)
     sk_child_exit(p, (int) j_int(s, "sig", 15));
   } else if (!strcmp(k, "cclose")) {
     sk_child_close(p, (int) j_int(s, "fd", 1));
+  } else if (!strcmp(k, "cclosex")) { /* the child closes every descriptor above 2 it holds (incl. the exit handle) and keeps running */
+    for (int fd = 3; fd < SK_MAXFD; fd++) sk_child_close(p, fd);
   } else if (!strcmp(k, "cread")) {
     int n = (int) j_int(s, "n", 1);
     int r = sk_child_read(p, 0, n);
